@@ -83,6 +83,11 @@ theorem GW.setWrittenH {w : World} (h : GW A R w) (pkt : Flushed) (a c : Nat) : 
 theorem GW.completeFlushH {w : World} (h : GW A R w) (pkt : Flushed) (now : Nat) : GW A R (w.completeFlush pkt now) :=
   ⟨hc.completeFlush _ _ _ _ h.1, h.2⟩
 
+theorem GW.failStepH {w : World} (h : GW A R w) (ctx : StepCtx) (st : Outbound.Step) : GW A R (w.failStep ctx st) := by
+  rcases failStep_cases w ctx st with e | e <;> rw [e]
+  · exact h
+  · exact h.handleDisconnectH hc
+
 theorem GW.discFailH {w : World} (h : GW A R w) (ctx : StepCtx) : GW A R (w.discFail ctx) := by
   rcases discFail_cases w ctx with ⟨e, _⟩ | ⟨e, _⟩ <;> rw [e]
   · exact h
@@ -179,7 +184,7 @@ theorem gstep_performStepH (fuel : Nat) (ih : GMachine A R fuel) :
   obtain ⟨_, _, i3, i4, i5, _⟩ := ih
   simp only [performStep]
   split
-  · exact (h.discFailH hc _).finishErr _ _
+  · exact (h.failStepH hc _ _).finishErr _ _
   · exact i5 _ _ _ hctx h
   · split
     · exact (h.discFailH hc _).finishErr _ _
